@@ -316,14 +316,14 @@ def run_cases(ctx, res, cfgs, scripts_for, build_tag_prefix="pm", per_case=False
         if per_case:
             rc, out, err = 1, "", ""
         else:
-            rc, out, err = ctx.run_bin(bins[c.tag], text, timeout=150)
+            rc, out, err = ctx.run_bin(bins[c.tag], text, timeout=1200)
         crashed = {}
         if rc != 0:
             # something crashed or hangs: run every case in its own process so that the failure is attributed to the
             # history that causes it (a corrupted heap otherwise kills a later, innocent case)
             outs = []
             for (name, lines) in sc:
-                rc1, o1, e1 = ctx.run_bin(bins[c.tag], "\n".join(lines) + "\n", timeout=20)
+                rc1, o1, e1 = ctx.run_bin(bins[c.tag], "\n".join(lines) + "\n", timeout=180)
                 if rc1 != 0:
                     crashed[name] = (rc1, (e1 or o1)[-300:])
                     outs.append("> CASE %s\n" % name)
